@@ -116,21 +116,21 @@ def fam_integer(maxd):
 
     def expect(ex, chars, ln, tokens, status):
         chars, ln, nd, signed = build.meta
-        # value of the literal, from the TEXT
-        k = next(j for j in range(1, maxd + 1) if ex.ctx.check(nd == j) == z3.sat)
-        sg = ex.ctx.check(signed) == z3.sat and ex.ctx.check(z3.Not(signed)) != z3.sat
-        off = 1 if sg else 0
-        mag = dec_value(chars[off:off + k])
-        val = z3.If(z3.And(z3.BoolVal(sg), chars[0] == 45), -mag, mag)
-        fits = z3.And(val >= -2**31, val <= 2**31 - 1)
-        if not tokens:
-            return z3.And(z3.BoolVal(status == "error"), z3.Not(fits))
-        tok, a, b = tokens[0]
-        td = tok.fields[0]
-        good = td.variant == "Primitive" and td.fields[0].variant == "Integer"
-        if not good:
-            return z3.BoolVal(False)
-        return z3.And(fits, td.fields[0].fields[0] == val, z3.BoolVal(a == 0 and b == off + k), after_literal(ex, chars, ln, off + k, tokens))
+        # value of the literal, from the TEXT; the shape (digit count, sign) is an input: whatever the path left open is covered
+        def for_shape(k, sg):
+            off = 1 if sg else 0
+            mag = dec_value(chars[off:off + k])
+            val = z3.If(z3.And(z3.BoolVal(sg), chars[0] == 45), -mag, mag)
+            fits = z3.And(val >= -2**31, val <= 2**31 - 1)
+            if not tokens:
+                return z3.And(z3.BoolVal(status == "error"), z3.Not(fits))
+            tok, a, b = tokens[0]
+            td = tok.fields[0]
+            good = td.variant == "Primitive" and td.fields[0].variant == "Integer"
+            if not good:
+                return z3.BoolVal(False)
+            return z3.And(fits, td.fields[0].fields[0] == val, z3.BoolVal(a == 0 and b == off + k), after_literal(ex, chars, ln, off + k, tokens))
+        return z3.And(*[z3.Implies(z3.And(nd == k, signed == z3.BoolVal(sg)), for_shape(k, sg)) for k in range(1, maxd + 1) for sg in (False, True)])
     return build, expect
 
 
@@ -181,18 +181,18 @@ def fam_ratio(maxn, maxd):
 
     def expect(ex, chars, ln, tokens, status):
         chars, ln, a, b = build.meta
-        ka = next(j for j in range(1, maxn + 1) if ex.ctx.check(a == j) == z3.sat)
-        kb = next(j for j in range(1, maxd + 1) if ex.ctx.check(b == j) == z3.sat)
-        num = dec_value(chars[:ka])
-        den = dec_value(chars[ka + 1:ka + 1 + kb])
-        ok = z3.And(num <= 2**31 - 1, den <= 2**32 - 1, den != 0)
-        if not tokens:
-            return z3.And(z3.BoolVal(status == "error"), z3.Not(ok))
-        tok, s0, s1 = tokens[0]
-        td = tok.fields[0]
-        if not (td.variant == "Primitive" and td.fields[0].variant == "Rational"):
-            return z3.BoolVal(False)
-        return z3.And(ok, td.fields[0].fields[0] == num, td.fields[0].fields[1] == den, z3.BoolVal(s1 == ka + 1 + kb), after_literal(ex, chars, ln, ka + 1 + kb, tokens))
+        def for_shape(ka, kb):
+            num = dec_value(chars[:ka])
+            den = dec_value(chars[ka + 1:ka + 1 + kb])
+            ok = z3.And(num <= 2**31 - 1, den <= 2**32 - 1, den != 0)
+            if not tokens:
+                return z3.And(z3.BoolVal(status == "error"), z3.Not(ok))
+            tok, s0, s1 = tokens[0]
+            td = tok.fields[0]
+            if not (td.variant == "Primitive" and td.fields[0].variant == "Rational"):
+                return z3.BoolVal(False)
+            return z3.And(ok, td.fields[0].fields[0] == num, td.fields[0].fields[1] == den, z3.BoolVal(s1 == ka + 1 + kb), after_literal(ex, chars, ln, ka + 1 + kb, tokens))
+        return z3.And(*[z3.Implies(z3.And(a == ka, b == kb), for_shape(ka, kb)) for ka in range(1, maxn + 1) for kb in range(1, maxd + 1)])
     return build, expect
 
 
@@ -250,14 +250,13 @@ def fam_identifier(maxk):
 
     def expect(ex, chars, ln, tokens, status):
         chars, ln, k = build.meta
-        kk = next(j for j in range(1, maxk + 1) if ex.ctx.check(k == j) == z3.sat)
         if not tokens:
             return z3.BoolVal(False)
         tok, a, b = tokens[0]
         td = tok.fields[0]
         if td.variant != "Identifier":
             return z3.BoolVal(False)
-        return z3.And(charstr_eq(td.fields[0], chars[:kk]), z3.BoolVal(a == 0 and b == kk))
+        return z3.And(*[z3.Implies(k == kk, z3.And(charstr_eq(td.fields[0], chars[:kk]), z3.BoolVal(a == 0 and b == kk))) for kk in range(1, maxk + 1)])
     return build, expect
 
 
@@ -324,13 +323,12 @@ def fam_string(maxk):
 
     def expect(ex, chars, ln, tokens, status):
         chars, ln, k = build.meta
-        kk = next(j for j in range(0, maxk + 1) if ex.ctx.check(k == j) == z3.sat)
         if len(tokens) != 1 or status != "end":
             return z3.BoolVal(False)
         td = tokens[0][0].fields[0]
         if not (td.variant == "Primitive" and td.fields[0].variant == "String"):
             return z3.BoolVal(False)
-        return charstr_eq(td.fields[0].fields[0], chars[1:1 + kk])
+        return z3.And(*[z3.Implies(k == kk, charstr_eq(td.fields[0].fields[0], chars[1:1 + kk])) for kk in range(0, maxk + 1)])
     return build, expect
 
 
